@@ -663,6 +663,47 @@ func c06Check(ctx *vfCtx, c c06Case) {
 		c06Judge(ctx, "keyring", kerrs[0], v, detail)
 	}
 
+	// batches: the verdict of an event does not depend on what else is in the batch - in particular not
+	// on another object under the same event ID (here: the same event with every signature removed,
+	// which can never verify while a server is required)
+	if len(kerrs) == 1 && len(reqs) > 0 && v.lo == v.hi {
+		var bare PDU
+		var berr2 error
+		bareWire := []byte(jplain(ev.with("signatures", jv{K: 'o'})))
+		if vfCatch(ctx, "C06/batch", func() { bare, berr2 = impl.NewEventFromTrustedJSON(bareWire, false) }) {
+			return
+		}
+		if berr2 == nil && bare != nil {
+			for _, order := range []string{"event-first", "bare-first"} {
+				batch := []PDU{pdu, bare}
+				if order == "bare-first" {
+					batch = []PDU{bare, pdu}
+				}
+				var errs []error
+				if vfCatch(ctx, "C06/batch", func() {
+					errs = VerifyAllEventSignatures(c06Ctx(), batch, KeyRing{KeyDatabase: c06NewDB(keys)}, vfUserIDForSender)
+				}) {
+					return
+				}
+				if len(errs) != 2 {
+					ctx.Fail("C06/batch/verify-all-length", "VerifyAllEventSignatures returned %d results for 2 events", len(errs))
+					break
+				}
+				ctx.Class("batch/" + order)
+				eventErr, bareErr := errs[0], errs[1]
+				if order == "bare-first" {
+					eventErr, bareErr = errs[1], errs[0]
+				}
+				if bareErr == nil {
+					ctx.Fail("C06/batch/unsigned-copy-accepted/"+order, "in a batch with the event itself, a copy without any signature is reported as verified; %s", detail)
+				}
+				if (eventErr == nil) != (kerrs[0] == nil) {
+					ctx.Fail("C06/batch/verdict-differs-from-single/"+order, "alone the event gives %v, in a batch with an unsigned copy of itself %v; %s", kerrs[0], eventErr, detail)
+				}
+			}
+		}
+	}
+
 	// which servers was the verifier asked about, and for which time?
 	if stub.nilFn {
 		ctx.Fail("C06/stub/no-validity-function", "a VerifyJSONRequest carries no ValidityCheckingFunc, so the room version's key-validity rule cannot be applied; %s", detail)
